@@ -35,7 +35,7 @@ type Machine[I any] struct {
 	// queries were issued at the start and after every earlier step ("observed history"): a query
 	// that leaves something behind (a memo, a lazily installed default) changes what a later call
 	// does, and the raw-state key cannot see such a residue. The quick tier does this for histories of
-	// up to three operations, the thorough tier for all of them.
+	// up to three operations, the thorough tier up to five.
 	Observe func(in I)
 	// Sequential: run one transition at a time. Needed where the oracle watches state that lives
 	// outside the instance (a bystander instance, package-level state): with transitions running side
@@ -203,7 +203,7 @@ func BFS[I any](c *Ctx, m *Machine[I]) bfsStats {
 					r.keys = append(r.keys, m.Key(in))
 				}
 				r.hists = append(r.hists, nh)
-				if m.Observe != nil && len(bad) == 0 && (!c.Quick() || len(h) <= 2) {
+				if m.Observe != nil && len(bad) == 0 && (len(h) <= 2 || (!c.Quick() && len(h) <= 4)) {
 					if in2, ok2 := rebuildObserved(m, h); ok2 && m.Enabled(in2, op) {
 						r.trans++
 						for _, b := range safeApply(m, in2, op, true) {
